@@ -1,10 +1,14 @@
 """C01 -- a reported convergence is truthful: residual, iteration count, solution.
 
 Stages
-  1. exact correspondence: the five modelled solvers (cg, bicgstab, richardson, gmres, fgmres)
-     instantiated at vq::Q through make_solver vs the extracted Coq models, (iters, residual, x)
-     byte for byte; maxiter = k for k = 0..K, tol in {0, 2^-10}, both sides, id/diag/matrix
-     preconditioners, zero and non-zero initial guess; model started from a junk workspace.
+  1. exact correspondence: ALL EIGHT solvers (cg, bicgstab, richardson, gmres, fgmres, lgmres,
+     bicgstabl, idrs) instantiated at vq::Q through make_solver vs the extracted Coq models,
+     (iters, residual, x) byte for byte; maxiter = k for k = 0..K, tol in {0, 2^-10}, both sides,
+     id/diag/matrix preconditioners, zero and non-zero initial guess, M/K/L/delta/convex/s/omega/
+     smoothing/replacement varied; model started from a junk workspace.  IDR(s): the constructor's
+     std::mt19937 draws are an explicit input of the model (op idrs.raw prints them; the model-side
+     case line carries them); the shadow space built from them is also compared on its own
+     (op idrs.shadow: private member P of the object vs KrylovIdrs.idrs_shadow).
   2. truthfulness oracle on the implementation's output, ALL EIGHT solvers: the extracted
      specification Krylov.true_res recomputes ||f - A x|| / ||f|| (preconditioned for left side)
      with the same pseudo-root and must equal the returned number exactly; iters <= maxiter (+L-1).
@@ -29,7 +33,8 @@ TRUSTED_BASE = [
 ASSUMPTIONS = [
     "C01-A1 (residual invariants) assume A and P linear and length preserving and a commutative ring with decidable equality; "
     "rounding clause of the property (double): tested with a long-double recomputation, not proved",
-    "lgmres, bicgstabl, idrs: no Coq model; covered by the implementation-side oracles only",
+    "idrs: the raw draws of std::mt19937 / uniform_real_distribution in the constructor are an input of the model, reproduced by "
+    "the harness op idrs.raw (same statements as the constructor; OMP_NUM_THREADS=1 in the runner); the exact build draws doubles and converts them",
     "the quantitative clause (1e-8 within 100 iterations on model problems) is measured in the double build, not proved",
 ]
 RULE = ("cases derived from VERIF_SEED by tools/props/C01.py; distinct = distinct case payload; non-trivial = implementation "
@@ -48,12 +53,15 @@ def exact_cases(tier, seed):
             sym = kc.sym_needed(solver) or r.random() < 0.4
             n = r.choice([2, 3, 4, 5] if tier == "quick" else [2, 3, 4, 5, 6, 7, 8])
             if heavy: n = min(n, 4 if tier == "quick" else 5)
+            if solver == "idrs": n = r.choice([2, 3, 4, 5] if tier == "quick" else [2, 3, 4, 5, 6])
             pkind = r.choice(kc.pkinds_for(solver, sym))
             S = kc.make_sys(r, n, sym, pkind)
             side = kc.side_for(r, solver)
             K = (3 if heavy else 5) if tier == "quick" else ((4 if heavy else n + 2))
+            if solver == "idrs": K = 8 if tier == "quick" else n + 5     # exact IDR(s) terminates after n + n/s steps
             M = r.choice([1, 2, 4]); L = r.choice([1, 2, 4]) if not heavy or solver != "bicgstabl" else r.choice([1, 2, 2, 3])
             base = dict(M=M, L=L, K=r.choice([0, 1, 2]), s=r.choice([1, 2, 3]), damping=r.choice([F(1), F(1, 2), F(3, 4)]),
+                        omega=r.choice([F(7, 10), F(7, 10), F(0), F(99, 100), F(3, 2)]),
                         smoothing=int(r.random() < 0.3), replacement=int(r.random() < 0.3), convex=int(r.random() < 0.7),
                         ca=int(r.random() < 0.3), delta=r.choice([F(0), F(0), F(1, 100), F(1, 2)]))
             for k in range(0, K + 1):
@@ -77,6 +85,12 @@ def exact_cases(tier, seed):
         S4.f = [F(0)] * 3                                          # zero right-hand side
         out.append(kc.solve_line("e%d" % len(out), solver, "right", S4, maxiter=3, tol=TOL10, M=2, L=1, s=2))
     return out
+
+
+def shadow_cases(tier, seed):
+    """the shadow space of IDR(s) on its own: constructor (private member P) vs KrylovIdrs.idrs_shadow"""
+    ns = [(2, 1), (3, 2), (3, 3), (4, 2), (2, 3), (5, 4)] if tier == "quick" else [(n, s) for n in range(1, 8) for s in range(0, 6)]
+    return ["h%d idrs.shadow %d %d" % (i, n, s) for i, (n, s) in enumerate(ns)]
 
 
 def probe_cases(tier, seed):
@@ -123,7 +137,7 @@ def double_cases(tier, seed):
 
 
 def cases(tier, seed):
-    return exact_cases(tier, seed) + probe_cases(tier, seed) + double_cases(tier, seed)
+    return exact_cases(tier, seed) + shadow_cases(tier, seed) + probe_cases(tier, seed) + double_cases(tier, seed)
 
 
 def run(ctx, cases_override=None):
@@ -134,11 +148,11 @@ def run(ctx, cases_override=None):
     orc_in = [l for l in lines if l.split(" ", 2)[1] == "o.truth"]
     by_id = {l.split(" ", 1)[0]: l for l in lines}
 
-    # 1. exact runs of the implementation (all eight) and of the model (the modelled five)
+    # 1. exact runs of the implementation and of the model (all eight solvers)
     impl = ctx["run_driver"](ctx["cpp"]["krylov"], exact, timeout=TMO)
     account(ctx, exact, impl)
     mlines = [l for l in exact if l.split(" ", 3)[2] in kc.MODELLED]
-    model = ctx["run_driver"](ctx["model"], mlines, timeout=TMO)
+    model = ctx["run_driver"](ctx["model"], kc.with_idrs_raw(ctx, mlines), timeout=TMO)
     for l in mlines:
         cid, op, solver = l.split(" ", 3)[:3]
         a, b = impl.get(cid), model.get(cid)
@@ -152,6 +166,21 @@ def run(ctx, cases_override=None):
         if a.startswith(("CRASH", "UNSUPPORTED", "INPUT-MODIFIED")) or a == "":
             fails.append(dict(kind="counterexample", case=l, impl=a[:400], model=None, op="solve", size=len(l),
                               theorem="implementation run (crash / modified input)"))
+
+    # 1b. IDR(s) shadow space: private member P of a constructed object vs the model's Gram-Schmidt of the raw draws
+    shadow = [l for l in lines if l.split(" ", 2)[1] == "idrs.shadow"]
+    if shadow:
+        si = ctx["run_driver"](ctx["cpp"]["krylov"], shadow, timeout=TMO)
+        account(ctx, shadow, si)
+        raw = kc.idrs_raw(ctx, [tuple(int(v) for v in l.split(" ")[2:4]) for l in shadow])
+        sm = ctx["run_driver"](ctx["model"], [l + " " + raw.get(tuple(int(v) for v in l.split(" ")[2:4]), "") for l in shadow], timeout=TMO)
+        for l in shadow:
+            cid = l.split(" ", 1)[0]
+            a, b = si.get(cid), sm.get(cid)
+            if a != b or a is None:
+                ctx["stats"]["mismatches"] += 1
+                fails.append(dict(kind="counterexample", case=l, impl=(a or "")[:4000], model=(b or "")[:4000], op="idrs.shadow", size=len(l),
+                                  theorem="correspondence: idrs constructor (private shadow space P) vs KrylovIdrs.idrs_shadow on the same mt19937 draws"))
 
     # 2. truthfulness oracle (extracted specification) on the implementation's outputs
     olines = list(orc_in)
